@@ -103,6 +103,10 @@ func Fixed() []Named {
 		// the library's own named string type as a payload: a value like any other
 		{"flyt-action", flyt.Action("approve")}, {"flyt-action-empty", flyt.Action("")}, {"flyt-action-default", flyt.DefaultAction},
 		{"slice-of-iface-err-two", []error{fmt.Errorf("e1"), nil}}, {"slice-of-stringer", []fmt.Stringer{nil}},
+		{"float32-neg0", float32(math.Copysign(0, -1))}, {"complex128-0", complex(0, 0)}, {"complex128-neg0", complex(math.Copysign(0, -1), 0)},
+		{"ptr-to-slice", &[]int{1, 2}}, {"ptr-to-anyslice", &[]any{1}}, {"ptr-to-nil-slice", new([]string)},
+		{"map-string-any-other-keys", map[string]any{"c": 3, "nested": map[string]any{"x": 1}}}, {"map-string-any-nested", map[string]any{"a": 9, "nested": map[string]any{"y": 2}}},
+		{"string-json-object", `{"a":1,"id":7,"name":"n"}`}, {"string-json-array", `[1,2,3]`}, {"bytes-json-object", []byte(`{"id":1,"name":"x"}`)},
 	}
 	// numeric kinds at boundary values
 	out = append(out,
